@@ -4,3 +4,4 @@ import Iodata.Props.C16
 import Iodata.Props.C20
 import Iodata.Props.C17
 import Iodata.Props.C19
+import Iodata.Props.C13
